@@ -66,7 +66,10 @@ def build_mask(case):
         m[rng.randint(ns), rng.randint(nf)] = True
     data = rng.randint(1, 5, (ns, nf)) * 100
     if case["dtype"] == "uint32":
-        data = data + 70000
+        # above the 16 bit range; one case in three each just above 2^24 and 2^31, with neighbouring levels one count
+        # apart (single precision cannot tell them apart, the integer kernel must)
+        big = [0, 2 ** 24, 2 ** 31][spec["seed"] % 3]
+        data = data + 70000 if big == 0 else big + rng.randint(0, 4, (ns, nf)).astype(np.int64)
     return m, data.astype(case["dtype"])
 
 
@@ -144,6 +147,8 @@ def check_rt(case, rec=None):
     levels = np.unique(data)
     cut = {"zero": 0, "below": 0, "between": int(levels[0]) + 50 if len(levels) > 1 else int(levels[0]) - 50,
            "at": int(levels[0])}[case["cutpos"]]
+    if case["dtype"] == "uint32" and int(levels[0]) >= 2 ** 24 and case["cutpos"] in ("between", "at"):
+        cut = 2 ** 24 if int(levels[0]) < 2 ** 31 else 2 ** 31       # the cut travels as a C float: keep it representable
     dm = None
     if case["detmask"]:
         dm = (np.random.RandomState(case["spec"]["seed"] % 1000).random_sample(mask.shape) < 0.8).astype(np.uint8)
